@@ -127,7 +127,49 @@ async def transfer(net, hyg, plan):
         op = plan["op"]
         k = plan["offset"]
         where = (f"{op} offset={k} size={plan['size']} old={plan['old_size']} bs={bs} kind={plan['kind']} backend={plan['backend']} "
-                 f"mss={mss} passive={plan['passive']} throttle={plan.get('throttle')}")
+                 f"mss={mss} passive={plan['passive']} throttle={plan.get('throttle')} history={plan.get('history')} "
+                 f"observer={plan.get('observer')}")
+        c0 = None
+        if plan.get("observer"):
+            # a session that is connected all the time and has looked at the file before anything happens to it
+            c0 = aioftp.Client(path_io_factory=aioftp.MemoryPathIO, passive_commands=(plan["passive2"],))
+            await c0.connect("127.0.0.1", 2121)
+            await c0.login()
+            if old is not None:
+                await c0.stat("/d/f.bin")
+                async with c0.download_stream("/d/f.bin") as s0:
+                    async for _b in s0.iter_by_block(4096):
+                        pass
+            await c0.list("/d")
+        for hop, hk, hlen in plan.get("history") or []:
+            # earlier operations on the same file (by the uploading session), tracked by the same byte model
+            hp = make_content(plan["kind"], hlen, rng)
+            if hop == "DELE":
+                if old is not None:
+                    await c.remove_file("/d/f.bin")
+                old = None
+            elif hop == "REPLACE":
+                async with c.upload_stream("/d/tmp.bin") as sh:
+                    await sh.write(hp)
+                if old is not None:
+                    await c.remove_file("/d/f.bin")
+                await c.rename("/d/tmp.bin", "/d/f.bin")
+                old = hp
+            else:
+                if hk and (old is None or not hp):
+                    hk = 0
+                if hk:
+                    old = old[:hk] + b"\0" * max(0, hk - len(old)) + hp + old[hk + len(hp):]
+                elif hop == "APPE":
+                    old = (old or b"") + hp
+                else:
+                    old = hp
+                async with (c.upload_stream if hop == "STOR" else c.append_stream)("/d/f.bin", offset=hk) as sh:
+                    await sh.write(hp)
+            if w.tree().get("/d/f.bin") != old:
+                viol.append({"key": f"stored-bytes-differ:history:{hop}", "msg": f"{where}: after the earlier {hop} the back end holds "
+                                                                                 f"{describe(w.tree().get('/d/f.bin'))}, expected {describe(old)}"})
+                return viol, mon
         if op in ("STOR", "APPE"):
             # model
             if k:
@@ -237,6 +279,18 @@ async def transfer(net, hyg, plan):
                                  "msg": f"{where}: {plan['concurrent_readers']} sessions downloading the file at the same time: reader {j} "
                                         f"got {describe(got)} expected {describe(want)} {first_diff(got, want)}"})
                     break
+        if c0 is not None:
+            mon["observer_session"] = mon.get("observer_session", 0) + 1
+            got0 = bytearray()
+            async with c0.download_stream("/d/f.bin") as s0:
+                async for b0 in s0.iter_by_block(4096):
+                    got0 += b0
+            info0 = await c0.stat("/d/f.bin")
+            if bytes(got0) != want or str(info0.get("size")) != str(len(want)):
+                viol.append({"key": "stale-content-on-an-older-session",
+                             "msg": f"{where}: a session connected before the change downloads {describe(bytes(got0))} / stat size "
+                                    f"{info0.get('size')}, expected {describe(want)} {first_diff(bytes(got0), want)}"})
+            await c0.quit()
         await c2.quit()
         if op in ("STOR", "APPE"):
             await c.quit()
@@ -322,6 +376,11 @@ def gen_cases(tier, seed):
             plan["short_reads"] = rng.choice([1, bs // 2, bs - 1, max(1, bs // 8)])
         if rng.random() < 0.25 and bs >= 7:
             plan["concurrent_readers"] = rng.choice([2, 2, 3])
+        if rng.random() < 0.3 and size + olds < 40000:
+            plan["observer"] = True
+        if rng.random() < 0.3 and size + olds < 40000:
+            plan["history"] = [[rng.choice(["STOR", "APPE", "STOR", "APPE", "DELE", "REPLACE"]), rng.choice([0, 0, 3, max(0, olds // 3)]),
+                                rng.choice([0, 5, 300, bs + 1])] for _ in range(rng.randint(1, 3))]
         plan["chunks"] = chunks(plan["size"], rng)
         if len(plan["reads"]) and 1 in plan["reads"] and olds + plan["size"] > 5000:
             plan["reads"] = [r if r != 1 else 100 for r in plan["reads"]]
